@@ -2,7 +2,7 @@ from registry import reg, Check
 
 reg(Check(
     "C03", "c03",
-    coq_targets=["Cache/C03Check.vo", "Cache/FeedReplay.vo", "Props/C03.vo"],
+    coq_targets=["Cache/C03Check.vo", "Cache/FeedReplay.vo", "Cache/SliceHeapProofs.vo", "Props/C03.vo"],
     assumptions=[
         "single goroutine per target; the callback registered with SetClient reads the leaf synchronously (C04 covers the concurrent subscriber)",
         "one clock reading per API call; the clock does not run backwards across metadata refreshes (Reset/UpdateMetadata), otherwise the refreshed counters depend on Go map iteration order",
@@ -11,7 +11,7 @@ reg(Check(
         "cache created without latency windows and server name",
     ],
     search_seeds=1,
-    modelled=["cache/cache.go: Cache.GnmiUpdate, Target.GnmiUpdate, gnmiUpdate, gnmiRemove, toDeleteNotification (with the slice-capacity aliasing of the stored prefix), Reset, Remove, Add, Sync, Connect, ConnectError, UpdateMetadata/updateMeta/generateMetaUpdates, Query; value.Equal on scalars; metadata/metadata.go; ctree via CTreeModel; path.ToStrings/joinPrefixAndPath via PathModel"],
+    modelled=["cache/cache.go: Cache.GnmiUpdate, Target.GnmiUpdate, gnmiUpdate, gnmiRemove, toDeleteNotification (with the slice-capacity aliasing of the stored prefix), Reset, Remove, Add, Sync, Connect, ConnectError, UpdateMetadata/updateMeta/generateMetaUpdates, Query; value.Equal on scalars; metadata/metadata.go; ctree via CTreeModel; path.ToStrings/joinPrefixAndPath via PathModel; slice-heap model (coq/Cache/SliceHeap.v: backing arrays, append in place / reallocating) of toDeleteNotification's Elem branch, pathElems, the gnmiRemove loop and the multi-notification strip-clone-restore dispatch, evaluated per case against the observed delete paths and spare-capacity writes (atomic and Element branches of toDeleteNotification: harness-checked only)"],
 ),
-    level_text="Theorems in coq/Props/C03.v state over the Gallina model of cache.Cache, for all histories of GnmiUpdate/Reset/Remove/Add/Sync/Connect/ConnectError/UpdateMetadata calls over any number of targets, that replaying the change feed reproduces every target's stored leaves (up to the timestamp of suppressed unchanged values), that an update is withheld only when rejected or suppressed-unchanged, that a multi notification is the sequence of its units (and of its single notifications when the future check is off; refuted otherwise), that atomic notifications are one unit; the model is tied to cache/cache.go by a correspondence run evaluated inside Coq, which also replays the implementation's own callback stream against its own Query results and checks that inputs are left unmodified (with prefix objects deliberately shared between notifications).",
+    level_text="Theorems in coq/Props/C03.v state over the Gallina model of cache.Cache, for all histories of GnmiUpdate/Reset/Remove/Add/Sync/Connect/ConnectError/UpdateMetadata calls over any number of targets, that replaying the change feed reproduces every target's stored leaves (up to the timestamp of suppressed unchanged values), that an update is withheld only when rejected or suppressed-unchanged, that a multi notification is the sequence of its units (and of its single notifications when the future check is off; refuted otherwise), that atomic notifications are one unit; the model is tied to cache/cache.go by a correspondence run evaluated inside Coq, which also replays the implementation's own callback stream against its own Query results and checks that inputs are left unmodified (with prefix objects deliberately shared between notifications, spare slice capacity inspected after every call); the input-unmodified clause is a theorem over a heap model of Go slices for the delete-notification construction and the multi-notification dispatch (pre-fix aliasing refuted on the corpus witness).",
     level_note="Trusted: Coq kernel + vm_compute, the hand-written model (validated only on the explored cases), the Go harness projection. Two defects found by this check were fixed in /repo (20c4a71, 4775c12; patches in /verif/fixes); three known findings stay open (origin carried by the update path is announced but not indexed; Cache.Add on a live target announces nothing; a target-less write through the exported Target handle is announced without a target).")
